@@ -49,7 +49,7 @@ def check(ctx):
     ctx.require(R1, callers <= allowed and SYNC in callers, "acmed/src/acme_proto/account.rs", "register_account callers = %s" % sorted(callers), [REG, "callers"])
     sb = prog.async_body(SYNC)
     regs = sb.calls_to(REG)
-    ctx.floor(R1, "register_account calls in synchronize", len(regs), 2)
+    ctx.floor(R1, "register_account calls in synchronize", len(regs), 1)
     ie = [c for c in sb.calls_to("alloc::string::String::is_empty") if (ACCEP, "account_url") in arg_origins(c, 0).fields]
     ctx.floor(R1, "account_url.is_empty() test", len(ie), 1)
     empty_edges = []
